@@ -496,3 +496,6 @@ def run(repo: Repo, rep: Report, tier: str) -> None:
     from .c05 import text_array_fold_rule
 
     text_array_fold_rule(repo, rep, "C02.R21")
+    from .c05 import leb128_rule as _leb
+
+    _leb(repo, rep, "C02.R22")
